@@ -149,6 +149,11 @@ def pot_shape(shape: str) -> dict:
         setup = ""
         body = one(0, "p0") + ['mon.write("#p1")', "mon.write(rd())"] + one(0, "p0") + one(1, "p1")
         meta.update(pots=[{"i": 0, "pin": 15}, {"i": 1, "pin": 17}], per_pass=[0, 1, 0, 1], in_setup=[])
+    elif shape == "discard":     # a read() whose result is thrown away (a settling read), in the loop, a branch and a helper
+        decl = 'p0 = Potentiometer("A1")\ndef settle():\n' + _ind(['mon.write("#d0")', "p0.read()"])
+        setup = "flip = 0\n"
+        body = ['mon.write("#d0")', "p0.read()"] + one(0, "p0") + ["flip = 1 - flip", "if flip == 1:", '    mon.write("#d0")', "    p0.read()", "settle()"] + one(0, "p0")
+        meta.update(pots=[{"i": 0, "pin": 15}], per_pass=[0] * 5, in_setup=[])
     elif shape in ("tuple2", "tuple3fn", "seqsum"):
         # several read() calls of one potentiometer inside ONE statement / expression list: the marker "#q0x<n>" announces
         # n calls whose results are printed afterwards in evaluation order (project_pot re-serialises them)
@@ -448,6 +453,17 @@ def project_pot(events: list, i: int, feed_pins=()) -> list:
                 if m < len(rets):
                     out.append({"k": "ret", "v": rets[m], "p": 0})
             j += 1
+            continue
+        if _is_str(e) and e["v"] == f"#d{i}":
+            # a call whose result the script discards: the analogReads up to the next printed line are its own
+            out.append({"k": "call", "v": 0, "p": 0})
+            j += 1
+            while j < n and events[j].get("e") not in ("phase", "w"):
+                x = events[j]
+                if x.get("e") == "ar" and x["p"] not in feed_pins:
+                    out.append({"k": "ar", "v": x["r"], "p": x["p"]})
+                j += 1
+            out.append({"k": "drop", "v": 0, "p": 0})
             continue
         if _is_str(e) and e["v"] == f"#p{i}":
             out.append({"k": "call", "v": 0, "p": 0})
